@@ -86,16 +86,6 @@ func vh_C03_ReduceIndexed() {
 
 // ---------- Filter / Reject / Partition / DropWhile ----------
 
-func ref03Filter(keep func(int, int) bool, l []int) []int {
-	var r []int
-	for i, v := range l {
-		if keep(v, i) {
-			r = append(r, v)
-		}
-	}
-	return r
-}
-
 func vh_C03_Filter() {
 	l := vfIntList("l", c03MaxLen(), c03Spare())
 	snap := vfSnapshot(l)
@@ -229,22 +219,6 @@ func vh_C03_Reverse() {
 }
 
 // ---------- Distinct / Dedupe / DropEq / UniqBy ----------
-
-func ref03Distinct(l []int) []int {
-	var r []int
-	for _, v := range l {
-		seen := false
-		for _, o := range r {
-			if o == v {
-				seen = true
-			}
-		}
-		if !seen {
-			r = append(r, v)
-		}
-	}
-	return r
-}
 
 func vh_C03_Distinct() {
 	l := vfIntList("l", c03MaxLen(), c03Spare())
